@@ -20,20 +20,26 @@ import (
 
 type c16SpecCase struct {
 	name string
-	id   *QUICID // nil: plain endpoint
+	id   *QUICID // nil: plain endpoint, or a custom spec advertising lim
+	lim  int
 }
 
 func c16SpecList() []c16SpecCase {
-	return []c16SpecCase{
-		{"plain", nil},
-		{"QUICFirefox_116A", &QUICFirefox_116A},
-		{"QUICFirefox_116B", &QUICFirefox_116B},
-		{"QUICFirefox_116C", &QUICFirefox_116C},
-		{"QUICChrome_115_IPv4", &QUICChrome_115_IPv4},
-		{"QUICChrome_115_IPv6", &QUICChrome_115_IPv6},
-		{"QUICChrome_146_IPv4", &QUICChrome_146_IPv4},
-		{"QUICChrome_146_IPv6", &QUICChrome_146_IPv6},
+	l := []c16SpecCase{
+		{"plain", nil, 0},
+		{"QUICFirefox_116A", &QUICFirefox_116A, 0},
+		{"QUICFirefox_116B", &QUICFirefox_116B, 0},
+		{"QUICFirefox_116C", &QUICFirefox_116C, 0},
+		{"QUICChrome_115_IPv4", &QUICChrome_115_IPv4, 0},
+		{"QUICChrome_115_IPv6", &QUICChrome_115_IPv6, 0},
+		{"QUICChrome_146_IPv4", &QUICChrome_146_IPv4, 0},
+		{"QUICChrome_146_IPv6", &QUICChrome_146_IPv6, 0},
 	}
+	// a user-written QUICSpec may advertise any limit
+	for lim := 2; lim <= 8; lim++ {
+		l = append(l, c16SpecCase{fmt.Sprintf("custom-spec(limit=%d)", lim), nil, lim})
+	}
+	return l
 }
 
 // c16AdvertisedBySpec: the limit a client built from the spec puts on the wire.
@@ -58,7 +64,7 @@ func c16AdvertisedBySpec(id QUICID) (limit int, present bool, err error) {
 	return 0, false, fmt.Errorf("spec has no QUICTransportParametersExtension")
 }
 
-const c16SpecScenarios = 3
+const c16SpecScenarios = 4
 
 // c16HonestPeer: op sequences of a peer that stays within limit L.
 func c16HonestPeer(scn, L int) []explore.Op {
@@ -78,6 +84,10 @@ func c16HonestPeer(scn, L int) []explore.Op {
 			ops = append(ops, explore.Op{N: "ncid", A: s})
 		}
 		ops = append(ops, explore.Op{N: "ncid", A: L, B: 1})
+	case 3: // one more than the limit (the statement does not say what happens; recorded as outcome)
+		for s := 1; s <= L; s++ {
+			ops = append(ops, explore.Op{N: "ncid", A: s})
+		}
 	}
 	return ops
 }
@@ -89,13 +99,17 @@ func c16SpecRun(i int) explore.CaseResult {
 	L := protocol.MaxActiveConnectionIDs
 	note := "constant advertised by connection.go"
 	var human []string
-	if sc.id == nil {
+	if sc.id == nil && sc.lim == 0 {
 		in = newC16Mgr(c16MgrCfg{}, c16MgrBounds{S: 12, nPth: 1})
 	} else {
-		l, present, err := c16AdvertisedBySpec(*sc.id)
-		explore.Must(err == nil, "spec %s: %v", sc.name, err)
-		L = l
-		note = fmt.Sprintf("in spec=%v", present)
+		if sc.id != nil {
+			l, present, err := c16AdvertisedBySpec(*sc.id)
+			explore.Must(err == nil, "spec %s: %v", sc.name, err)
+			L = l
+			note = fmt.Sprintf("in spec=%v", present)
+		} else {
+			L, note = sc.lim, "custom spec"
+		}
 		in = newC16Mgr(c16MgrCfg{uquic: true}, c16MgrBounds{S: 12, nPth: 1})
 		op := explore.Op{N: "advertise", A: L}
 		human = append(human, op.String())
@@ -118,7 +132,9 @@ func c16SpecRun(i int) explore.CaseResult {
 			return res
 		}
 		if in.dead {
-			break
+			res.Human = human
+			res.Outcome = fmt.Sprintf("%s L=%d scn=%d closed at %v: %s", sc.name, L, scn, op, in.Outcome())
+			return res
 		}
 	}
 	res.Human = human
@@ -132,9 +148,9 @@ func c16SpecPart(name string) explore.Part {
 		Name: name,
 		Run: func(e explore.Env) *explore.Report {
 			rep := explore.RunCases(e, n, 1, true, c16SpecRun)
-			rep.Rule = fmt.Sprintf("explicit cases: {plain endpoint, %d shipped QUIC specs} x %d honest-peer fill strategies (straight, after rotation, with Retire Prior To); the advertised limit is read from the spec's transport parameters", len(c16SpecList())-1, c16SpecScenarios)
+			rep.Rule = fmt.Sprintf("explicit cases: {plain endpoint, 7 shipped QUIC specs, custom specs advertising 2..8} x %d peer strategies (fill the advertised limit straight / after rotation / with Retire Prior To; one ID beyond the limit); the advertised limit is read from the spec's transport parameters", c16SpecScenarios)
 			rep.Bound = fmt.Sprintf("%d cases", n)
-			for _, i := range []int{0, 4, 14} {
+			for _, i := range []int{0, 4, 18} {
 				cr := c16SpecRun(i)
 				rep.Samples = append(rep.Samples, map[string]any{"case": i, "ops": cr.Human, "outcome": cr.Outcome})
 			}
